@@ -191,7 +191,12 @@ fn cast_ray(bv: &SimdAabb, ray: &SimdRay) -> (SimdBool, SimdReal) {
             tmin = tmin.simd_max(inter_with_near_plane);
             tmax = tmax.simd_min(inter_with_far_plane);
 
-            tmin.simd_le(tmax)
+            // The slab parameters carry a rounding error of a few ulps, so a line which touches the
+            // box only at a corner (it passes through a vertex of the polyline) can come out with
+            // tmin one ulp above tmax. This test only prunes: the per-edge test decides, so a
+            // relative slack can never add a wrong intersection.
+            let mag = tmin.simd_max(-tmin).simd_max(tmax.simd_max(-tmax));
+            tmin.simd_le(tmax + mag * SimdReal::splat(1e-9))
         };
 
         hit = hit & is_not_zero_test.select(is_not_zero, is_zero_test);
